@@ -317,6 +317,17 @@ func (p *Prog) buildCallGraph(kind string) error {
 				callee := e.Callee.Func
 				if p.InModule(callee) {
 					add(callee)
+				} else if callee != nil && callee.Synthetic != "" {
+					// a thunk / bound-method wrapper of a method expression or method value: what it forwards to
+					for _, wb := range callee.Blocks {
+						for _, win := range wb.Instrs {
+							if wci, ok := win.(ssa.CallInstruction); ok {
+								if inner := wci.Common().StaticCallee(); inner != nil && p.InModule(inner) {
+									add(inner)
+								}
+							}
+						}
+					}
 				}
 			}
 		}
